@@ -143,7 +143,7 @@ impl MapSpec {
                 s,
                 "{},{},4,2,0,60,{},{}",
                 num(t.time),
-                if t.beat_len.is_nan() { "NaN".to_string() } else { format!("{}", t.beat_len) },
+                if t.beat_len.is_nan() { (if t.beat_len.is_sign_negative() { "-NaN" } else { "NaN" }).to_string() } else { format!("{}", t.beat_len) },
                 u8::from(t.uninherited),
                 u8::from(t.kiai)
             );
@@ -493,7 +493,7 @@ pub fn gen_map(t: &mut Tape, p: &MapProfile) -> MapSpec {
         let beat_len = if uninherited {
             gen_beat_len(t, p.adversarial)
         } else if t.chance(1, 24) {
-            f64::NAN
+            if t.coin() { f64::NAN } else { -f64::NAN }
         } else {
             -100.0 / *t.pick(SVS)
         };
